@@ -47,12 +47,14 @@ def build_runner(repo, build):
 def spline_scenarios(tier, what):
     """enumerate the bounded configuration space; `what` selects a sub-family"""
     out = []
-    ns = [3, 4, 5] if tier == "quick" else [3, 4, 5, 6, 7]
+    ns = [3, 4, 5] if tier == "quick" else [3, 4, 5, 6, 7, 8, 9]
     if what in ("pairs", "all"):
         for n in ns:
             for li, l in enumerate(SINGLE):
                 for ri, r in enumerate(SINGLE):
                     out.append("spline n=%d bc=Individual=Mixed:%s:%s extrap=1 seed=%d" % (n, l, r, (n + li + 2 * ri) % 7))
+                    if tier == "thorough" and n <= 6:
+                        out.append("spline n=%d lanes=2 bc=Individual=Mixed:%s:%s|Mixed:%s:%s extrap=1 seed=%d off=%s" % (n, l, r, r, l, (n + 3 * li + ri) % 9, "-17.75" if (li + ri) % 2 else "250.5"))
     if what in ("whole", "all"):
         for n in ns:
             for bc in ("NotAKnot", "Natural", "Clamped", "Periodic"):
@@ -71,12 +73,25 @@ def spline_scenarios(tier, what):
             out.append("spline n=%d lanes=2 bc=Individual=Clamped|Clamped extrap=1 seed=1" % n)
             out.append("spline n=%d lanes=2 bc=Individual=Natural|Natural extrap=0 seed=4" % n)
             out.append("spline n=%d lanes=2 bc=Natural extrap=1 seed=6 layout=f" % n)
+            out.append("spline n=%d bc=NotAKnot extrap=1 seed=1 gapset=mean" % n)
+            out.append("spline n=%d bc=Natural extrap=0 seed=2 gapset=uniform" % n)
+            out.append("spline n=%d lanes=2 bc=Clamped extrap=1 seed=3 gapset=palindrome" % n)
+            out.append("spline n=%d bc=Periodic extrap=1 seed=2 gapset=mean" % n)
+            out.append("spline n=%d bc=NotAKnot extrap=1 seed=4 xlayout=rev" % n)
+            out.append("spline n=%d lanes=2 bc=Natural extrap=1 seed=1 xscale=1e-9 off=3" % n)
     if what == "linear":
         for n in ([2, 3, 5] if tier == "quick" else [2, 3, 4, 5, 7, 9]):
             for lanes, dyn in (("", 0), ("2", 0), ("2x2", 0), ("3", 1)):
                 for ex in (0, 1):
                     out.append("linear n=%d lanes=%s extrap=%d seed=%d dyn=%d" % (n, lanes, ex, (n + ex) % 6, dyn))
             out.append("linear n=%d lanes=2 extrap=1 seed=2 layout=f" % n)
+            # knots a few ulps apart around tiny values, huge values, special spacings, reversed-stride axis
+            out.append("linear n=%d lanes=2 extrap=0 seed=1 xscale=1e-18" % n)
+            out.append("linear n=%d extrap=1 seed=3 xscale=1e-300" % n)
+            out.append("linear n=%d extrap=1 seed=2 xscale=1e18 off=7" % n)
+            out.append("linear n=%d lanes=2 extrap=1 seed=4 gapset=uniform" % n)
+            out.append("linear n=%d extrap=1 seed=1 gapset=mean" % n)
+            out.append("linear n=%d lanes=2 extrap=1 seed=2 xlayout=rev" % n)
     if what == "bilinear":
         for nx, ny in ([(2, 2), (3, 2), (2, 4), (3, 5), (4, 3)] if tier == "quick" else [(2, 2), (3, 2), (2, 4), (3, 5), (4, 3), (5, 5), (6, 2)]):
             for lanes in (1, 2):
@@ -90,6 +105,10 @@ def spline_scenarios(tier, what):
             out.append("spline n=%d bc=Periodic extrap=1 seed=%d off=37.5" % (n, (n + 1) % 5))
             out.append("spline n=%d bc=Periodic extrap=1 seed=%d off=-41.25" % (n, n % 5))
             out.append("spline n=%d lanes=2 bc=Periodic extrap=1 seed=%d off=1003.5" % (n, (n + 3) % 5))
+            # the other order of the builder calls, a reversed-stride axis view
+            out.append("spline n=%d bc=Periodic extrap=1 seed=%d order=eb" % (n, (n + 1) % 5))
+            out.append("spline n=%d bc=Periodic extrap=1 seed=%d off=-12.5 order=eb" % (n, n % 5))
+            out.append("spline n=%d bc=Periodic extrap=1 seed=%d xlayout=rev off=9.25" % (n, (n + 2) % 5))
     return out
 
 
@@ -98,7 +117,7 @@ def entry_scenarios(tier, what):
     if what == "entry1d":
         combos = [("3", "3", 0, 0), ("3", "", 0, 0), ("3x2", "3", 0, 0), ("3x2", "", 0, 0), ("3x2", "2x2", 0, 0), ("3", "2x2", 0, 0), ("3x2x2", "2", 0, 0),
                   ("3x2x2", "2", 0, 1), ("3x2", "2", 0, 1), ("3", "2", 0, 1), ("3x2", "2", 1, 0), ("3x2x2", "2x3", 1, 1), ("3x2", "2", 1, 1), ("3", "", 0, 1),
-                  ("3x2", "0", 0, 0), ("3x0", "2", 0, 0)]
+                  ("3x2", "0", 0, 0), ("3x0", "2", 0, 0), ("3x2x3", "2", 0, 0), ("3x2x3", "2", 0, 1), ("4x1", "2", 0, 0), ("4x3x1", "2", 0, 0), ("4x3", "2", 1, 0)]
         if tier == "thorough":
             combos += [("3x2x2", "2x2", 0, 0), ("3x2", "2x1x2", 0, 0), ("3", "2x1x2", 0, 0), ("3x2x1x2", "2", 0, 0), ("3x2x1x2", "2x1x2x1", 0, 0), ("3x2", "2x2", 1, 0),
                        ("3x2x2", "", 0, 1), ("3x2", "2x2x2", 0, 1), ("4x3", "0x2", 0, 0), ("3x2", "2x0", 0, 1)]
@@ -109,7 +128,7 @@ def entry_scenarios(tier, what):
                 out.append("entry1d data=%s q=%s ddyn=%d qdyn=%d strat=%s" % (d, q, dd, qd, st))
     if what == "entry2d":
         combos = [("3x3", "2", 0, 0), ("3x3", "", 0, 0), ("3x2x2", "2", 0, 0), ("3x3", "2x2", 0, 0), ("3x2x2", "2x2", 0, 0), ("3x2x2", "2", 1, 0), ("3x2x2", "2", 1, 1),
-                  ("3x2x2", "2x2", 0, 1), ("3x3", "2", 0, 1)]
+                  ("3x2x2", "2x2", 0, 1), ("3x3", "2", 0, 1), ("3x3", "0", 0, 0), ("3x2x2", "0", 0, 0), ("3x2x2x3", "2", 0, 0), ("3x2x1", "2", 0, 0)]
         if tier == "thorough":
             combos += [("3x2x2x2", "2", 0, 0), ("3x2x2x2", "2x2", 0, 0), ("3x2x2", "", 1, 1), ("3x3", "2x1", 0, 1)]
         for d, q, dd, qd in combos:
@@ -118,6 +137,10 @@ def entry_scenarios(tier, what):
     if what.startswith("oracle:"):
         _, prop, unit = what.split(":", 2)
         out.append("oracle prop=%s unit=%s" % (prop, unit))
+    if what == "flagpair":
+        for n in ([2, 4, 6] if tier == "quick" else [2, 3, 4, 6, 9, 12]):
+            for lanes in (1, 3):
+                out.append("flagpair n=%d lanes=%d" % (n, lanes))
     if what == "scalar":
         out += ["scalar n=%d" % n for n in ([3, 5] if tier == "quick" else [2, 3, 4, 5, 8])]
     if what == "fastpath":
@@ -201,7 +224,7 @@ def run(repo, cfg, pid, tier, seed, build):
             return []
         path = os.path.join(workdir, "chunk%d.jsonl" % ci)
         open(path, "w").write("\n".join(chunks[ci]) + "\n")
-        q = subprocess.run(["python3-vt", os.path.join(VERIF, "symexec", "discharge.py"), path, fams, sym_rule, str(seed)], capture_output=True, text=True)
+        q = subprocess.run(["python3-vt", os.path.join(VERIF, "symexec", "discharge.py"), path, fams, sym_rule, str(seed), "6" if tier == "thorough" else "3"], capture_output=True, text=True)
         if q.returncode != 0:
             return [dict(scenario="chunk%d" % ci, error=q.stderr[-1500:], results=[])]
         return json.loads(q.stdout)
